@@ -206,6 +206,9 @@ pub trait L21Elem: Sized {
     /// field-for-field equality of `self` (the original, of known shape) and `g` (e.g. parsed back), with every loop
     /// bounded by the original's constant shape: strings of `slen` bytes, `npts` points, `np` properties
     fn same(&self, g: &Self, slen: usize, npts: usize, np: usize) -> bool;
+    /// pin a small-domain field to a concrete value (so that code whose record SHAPE depends on it stays concrete for
+    /// the model checker); `which` 255 = leave everything symbolic. Only path-like elements have such a field.
+    fn pin(&mut self, _which: u8) {}
 }
 fn str_same(a: &String, b: &String, n: usize) -> bool {
     let (x, y) = (a.as_bytes(), b.as_bytes());
@@ -316,6 +319,11 @@ impl L21Elem for GdsPath {
     fn wrap(self) -> GdsElement {
         GdsElement::GdsPath(self)
     }
+    fn pin(&mut self, which: u8) {
+        if which != 255 && self.path_type.is_some() {
+            self.path_type = Some(which as i16);
+        }
+    }
     fn same(&self, g: &Self, slen: usize, npts: usize, np: usize) -> bool {
         self.layer == g.layer
             && self.datatype == g.datatype
@@ -407,6 +415,11 @@ impl L21Elem for GdsTextElem {
     }
     fn wrap(self) -> GdsElement {
         GdsElement::GdsTextElem(self)
+    }
+    fn pin(&mut self, which: u8) {
+        if which != 255 && self.path_type.is_some() {
+            self.path_type = Some(which as i16);
+        }
     }
     fn same(&self, g: &Self, slen: usize, _npts: usize, np: usize) -> bool {
         let pres = match (&self.presentation, &g.presentation) {
